@@ -21,6 +21,7 @@ pub fn run_c13(ctx: &mut Ctx) {
     let mut or = Oracle::new("C13",
         "op histories of length <= 40 over limits 1..4 and 0..2 clones: get_token (on the runner or a clone), poll, drop-pending-request, drop-token; single-threaded with a counting waker per pending request (poll results and wake counts compared with the model); \
          plus a real-thread stress (acquirer/dropper threads, live counter asserted <= max after every acquisition) as failing-input search. Non-trivial: history contains a contended acquisition; distinct by history");
+    crate::exec::witness_corpus(&["C13_"], &mut log, &mut im, &mut or);
     let mut rng = ctx.rng.fork();
     for ci in 0..ctx.n(2000, 40_000) {
         if or.saturated() { or.count("stopped_early_saturated"); break; }
